@@ -265,3 +265,18 @@ Proof.
   intros maxassets c ops o H Ho. cbn zeta. apply spec_step_model; auto.
   apply Inv_reachable. exact H.
 Qed.
+
+(* groups: the checker's predicate for a whole group holds of the model *)
+Theorem model_meets_spec_group : forall maxassets c gs g, Forall (Forall op_wf) gs -> Forall op_wf g ->
+  let w := grun maxassets (winit c) gs in
+  let '(w', r, _) := gstep maxassets w g in
+  spec_group w (res_ok_l r) w' = 0.
+Proof.
+  intros maxassets c gs g F Fg. cbn zeta.
+  assert (Inv (grun maxassets (winit c) gs)) as I by (apply Inv_grun; [apply Inv_winit|exact F]).
+  pose proof (Inv_gstep maxassets _ g I Fg) as I'.
+  destruct (gstep maxassets (grun maxassets (winit c) gs) g) as [[w' r] k] eqn:E. cbn [fst] in I'.
+  unfold spec_group. rewrite (Inv_supply_ok _ I'). cbn [negb].
+  destruct r as [vs|e]; cbn [res_ok_l negb]; [reflexivity|].
+  apply failing_group_changes_nothing in E. subst w'. rewrite state_equiv_same; auto.
+Qed.
